@@ -325,3 +325,22 @@ Definition ks_check (c : ks_case) : bool :=
      | None => false
      end.
 Definition ks_expected (c : ks_case) : list (list (list N)) := map ks_spec (sc_keys c).
+
+(* ---------------------------------------------------------------- call histories
+   encrypt / decrypt / key_schedule / the primitives are pure functions: the model of a call does not depend on the calls
+   made before it, so a history of calls is checked call by call, each against the spec and the model exactly as above.
+   (What the histories exercise is on the implementation side: hidden state kept between calls — memoisation keyed on too
+   little, cached arrays handed out by reference.) *)
+Inductive call := CallCipher (c : aes_case) | CallPrim (c : prim_case) | CallArk (c : ark_case) | CallKs (c : ks_case).
+
+Definition call_check (c : call) : bool :=
+  match c with
+  | CallCipher c => aes_check c
+  | CallPrim c => prim_check c
+  | CallArk c => ark_check c
+  | CallKs c => ks_check c
+  end.
+
+Definition hist_check (h : list call) : bool := forallb call_check h.
+(* for the replay file: which calls of the history agree *)
+Definition hist_explain (h : list call) : list bool := map call_check h.
